@@ -157,10 +157,20 @@ structure DefaultCfg where
   panicLvl : Option Str     -- with_panic_lvl
   deriving Repr
 
+/-- The extent of an emitted event. -/
+inductive Ext where
+  | range (a b : Ts)
+  | point (t : Ts)
+  deriving Repr, DecidableEq
+
+def rangeExt : Option (Ts × Ts) → Option Ext
+  | some (a, b) => some (.range a b)
+  | none => none
+
 structure Emitted where
   mdl : Str
   tpl : Str
-  extent : Option (Ts × Ts)
+  extent : Option Ext
   props : Props             -- as enumerated: completion props, then the span's own, then ambient
   deriving Repr, DecidableEq
 
@@ -174,7 +184,74 @@ def defaultComplete (cfg : DefaultCfg) (panicking : Bool) (ambient : Props) (c :
       | none => []
   { mdl := c.mdl
     tpl := cfg.tpl.getD "{span_name} completed"
-    extent := c.extent
+    extent := rangeExt c.extent
     props := completionProps ++ [("evt_kind", "span"), ("span_name", c.name)] ++ c.props ++ ambient }
+
+
+/-! ### The macro forms (`#[emit::span]`, `#[emit::info_span]`…, `emit::new_span!`)
+
+  /repo/macros/src/span.rs:222-290 (inject_sync / inject_async), :395-510 (result_completion / completion) and
+  /repo/src/macro_hooks.rs:819-1018. The expansion is: `begin_span` (= `SpanGuard::new` with the default
+  completion `__private_complete_span(rt, tpl, lvl, panic_lvl)`), then inside the frame `start()`, the body, and
+    * without `ok_lvl`/`err_lvl`/`err`: the guard is dropped when the body ends (normally or by unwinding);
+    * with any of them: the body runs in a closure and its `Result` is matched:
+        Ok  → `guard.complete_with(__private_complete_span_ok(rt, tpl, ok_lvl.or(default_lvl)))`
+        Err → `guard.complete_with(__private_complete_span_err(rt, tpl, err_lvl.or(default_lvl).unwrap_or("error"), err_mapper(&e)))`
+      and a panic still unwinds through the guard's `Drop`.
+  With `guard: g` the user receives the guard; the fixtures complete it manually or let it drop.
+-/
+
+structure MacroCfg where
+  lvlDefault : Option Str     -- `#[emit::info_span]` etc. (none for plain `#[emit::span]`)
+  okLvl : Option Str
+  errLvl : Option Str
+  errMapped : Bool            -- `err: <mapper>` given
+  hasErrArg : Bool            -- whether `err` was given at all (selects the Result-aware expansion)
+  panicLvl : Option Str
+  manual : Bool               -- `guard: g` and the body calls `g.complete()` itself
+  deriving Repr, DecidableEq
+
+inductive Exit where
+  | ok        -- normal return (fall-through or early `return`) with `Ok` / a non-Result value
+  | err       -- the body evaluates to `Err(e)` (directly or through `?`)
+  | panic     -- the body panics
+  deriving Repr, DecidableEq
+
+def MacroCfg.useResult (c : MacroCfg) : Bool := c.okLvl.isSome || c.errLvl.isSome || c.hasErrArg
+
+/-- completion ids used by the macro model -/
+def compDefault : Nat := 0
+def compOk : Nat := 1
+def compErr : Nat := 2
+
+/-- The guard operations the expansion performs for a body that exits by `exit`. -/
+def macroProgram (c : MacroCfg) (exit : Exit) : List Op :=
+  match exit with
+  | .panic => [.start, .drop]
+  | .ok => if c.useResult then [.start, .completeWith compOk] else if c.manual then [.start, .complete] else [.start, .drop]
+  | .err => if c.useResult then [.start, .completeWith compErr] else [.start, .drop]
+
+/-- The event a completion call turns into. `errText` is the Display of the error (after the mapper). -/
+def macroEvent (c : MacroCfg) (exit : Exit) (tpl : Str) (errText : Str) (ambient : Props) (fallback : Option Ts)
+    (call : Call) : Emitted :=
+  -- the Ok/Err completions hand `rt.clock()` to `emit_core::emit`, which reads it (a point extent) only when
+  -- the span has no extent of its own; the default completion hands it an `Empty` clock
+  let ext : Option Ext := (rangeExt call.extent).or (fallback.map .point)
+  if call.by_ = compOk then
+    { mdl := call.mdl, tpl := tpl, extent := ext
+      props := (match c.okLvl.or c.lvlDefault with | some l => [("lvl", l)] | none => []) ++
+        [("evt_kind", "span"), ("span_name", call.name)] ++ call.props ++ ambient }
+  else if call.by_ = compErr then
+    { mdl := call.mdl, tpl := tpl, extent := ext
+      props := [("lvl", ((c.errLvl.or c.lvlDefault).getD "error")), ("err", errText)] ++
+        [("evt_kind", "span"), ("span_name", call.name)] ++ call.props ++ ambient }
+  else
+    defaultComplete ⟨some tpl, c.lvlDefault, c.panicLvl⟩ (exit == .panic) ambient call
+
+/-- Everything a macro-instrumented function emits for its own span. -/
+def macroRun (c : MacroCfg) (enabled : Bool) (exit : Exit) (clk : Clock) (mdl name tpl errText : Str)
+    (ambient : Props) : List Emitted :=
+  let r := run (new enabled compDefault ⟨mdl, name, []⟩) clk (macroProgram c exit)
+  r.1.map (macroEvent c exit tpl errText ambient (now r.2.2.2).1)
 
 end EmitModel.SpanGuard
